@@ -51,6 +51,15 @@ pub fn classify(m: &Model, input: &[u8], cap: usize, ctx: &mut Ctx) -> bool {
         ctx.class("record needs buffer growth");
     }
     ctx.class(&format!("terminal: {}", gen::term_kind(m)));
+    if matches!(m.term, Terminal::Err(_)) && m.term_byte / cap != (input.len().saturating_sub(1)) / cap {
+        ctx.class("error group and end of input lie in different buffer windows");
+    }
+    if matches!(m.term, Terminal::Err(_)) && !m.recs.is_empty() {
+        ctx.class("error preceded by valid records");
+    }
+    if matches!(m.term, Terminal::Unspecified) {
+        ctx.class("mixed-terminator-excluded (comparison stops at the out-of-domain group)");
+    }
     ctx.class(&format!("records: {}", match m.recs.len() { 0 => "0", 1 => "1", 2..=4 => "2-4", _ => "5+" }));
     has_content && (crosses || crlf || empty_seq || no_final || blank)
 }
@@ -131,6 +140,27 @@ fn classify_light(m: &Model, input: &[u8], cap: usize) -> bool {
 }
 
 pub const RULE: &str = "cases = (input from {grammar-built FASTA documents, 1-3 byte mutations of them, byte soups over a structural alphabet}) x (capacity absolute 3..300 or relative to record extents/offsets/input length) x permissive policy x chunk/interrupt script x {next, records(), into_records()}; thorough adds the complete small-scope enumeration. Non-trivial = (>=1 record or an invalid start) and (a record or the leading blank region crosses a buffer refill, or CRLF present, or empty sequence, or missing final terminator, or blank lines). Distinct = hash(input, capacity, chunk script).";
+
+pub const RULE_FQ: &str = "cases = (input from {grammar-built FASTQ documents with an optional defect (wrong start byte, wrong separator byte, length mismatch, truncation at any byte, dropped line) at a generated record index, 1-3 byte mutations, byte soups}) x (capacity absolute 3..300 or relative to record extents/offsets/input length) x permissive policy x chunk/interrupt script x {next, records(), into_records()}; thorough adds the complete small-scope enumeration. Groups mixing LF and CRLF between sequence and quality line are outside the claimed domain: the comparison stops there (class mixed-terminator-excluded). Non-trivial = (>=1 record or a format error) and (crosses a buffer refill, or CRLF, or missing final terminator, or blank lines). Distinct = hash(input, capacity, chunk script).";
+
+pub fn run_c02(tier: Tier) -> i32 {
+    let mut run = Run::new("C02", tier, "exploration");
+    let p = ReadModel(Format::Fastq);
+    run.replays("model-differential", &p);
+    run.generated("model-differential", &p, tier.pick(120_000, 4_000_000));
+    exhaustive(&mut run, Format::Fastq, b"@+\n\rA", if tier == Tier::Quick { 6 } else { 8 });
+    run.finish(
+        RULE_FQ,
+        &[
+            "the reference model M_fq (harness/src/model.rs) is the documented FASTQ rule set of C02, validation order start byte -> separator byte -> lengths",
+            "records whose sequence and quality lines end with different terminators are outside the claimed domain; the model stops there",
+        ],
+    )
+}
+
+pub fn replay_c02(run: &mut Run, file: &std::path::Path) -> Option<bool> {
+    run.replay_file("model-differential", &ReadModel(Format::Fastq), file, true)
+}
 
 pub fn run(tier: Tier) -> i32 {
     let mut run = Run::new("C01", tier, "exploration");
